@@ -301,6 +301,126 @@ def run_r4(ctx, rule):
                 rule.check(ok, "%s/neg-conversion" % name, "%s negates the (at most 7 digit) kernel value before from_i32" % name, f.loc(bb))
 
 
+# ---- R5: the SWAR kernel's digit test, lane by lane ---------------------------------------------------
+class LaneCarry(Exception):
+    pass
+
+
+class LaneUnsupported(Exception):
+    pass
+
+
+def lane_eval(e, word):
+    """abstract interpretation of a u64 expression as eight independent byte lanes: for every lane a table
+    input byte -> result byte.  Exact for constants, and/or/xor/not, shifts by whole bytes, and for additions that
+    cannot carry from one lane into the next (checked for all 256 input bytes of the lower lane); anything else
+    is outside the domain"""
+    k = e[0]
+    if (callable(word) and word(e)) or e == word:
+        return [list(range(256)) for _ in range(8)]
+    if k == "c" and isinstance(e[1], int):
+        return [[(e[1] >> (8 * p)) & 255] * 256 for p in range(8)]
+    if k == "cast":
+        return lane_eval(e[2], word)
+    if k == "un" and e[1] == "Not":
+        return [[(~v) & 255 for v in t] for t in lane_eval(e[2], word)]
+    op, a, b = None, None, None
+    if k == "bin":
+        op, a, b = e[1].replace("Unchecked", ""), e[2], e[3]
+    elif k == "call" and len(e[3]) == 2:
+        nm = norm(e[2]).rsplit("::", 1)[-1]
+        op = {"wrapping_add": "Add", "bitand": "BitAnd", "bitor": "BitOr", "bitxor": "BitXor"}.get(nm)
+        a, b = e[3]
+    if op in ("BitAnd", "BitOr", "BitXor"):
+        ta, tb = lane_eval(a, word), lane_eval(b, word)
+        fn = {"BitAnd": lambda x, y: x & y, "BitOr": lambda x, y: x | y, "BitXor": lambda x, y: x ^ y}[op]
+        return [[fn(x, y) for x, y in zip(la, lb)] for la, lb in zip(ta, tb)]
+    if op == "Add":
+        ta, tb = lane_eval(a, word), lane_eval(b, word)
+        out = []
+        for p in range(8):
+            lane = []
+            for x, y in zip(ta[p], tb[p]):
+                if x + y > 255 and p < 7:
+                    raise LaneCarry("adding lane %d can carry into lane %d (e.g. input byte 0x%02x)" % (p, p + 1, ta[p].index(x) if ta[p].count(x) == 1 else 0))
+                lane.append((x + y) & 255)
+            out.append(lane)
+        return out
+    if op in ("Shl", "Shr") and b[0] == "c" and isinstance(b[1], int) and b[1] % 8 == 0 and 0 <= b[1] < 64:
+        raise LaneUnsupported("byte shift changes which input byte a lane depends on")
+    raise LaneUnsupported(str(e)[:60])
+
+
+def kernel_zero_class(f, is_word):
+    """(byte values for which a lane of the word handed to trailing_zeros is zero -- the same in all eight lanes --,
+    block of the trailing_zeros call); raises LaneCarry / LaneUnsupported"""
+    sy = sym(f)
+    tz = [(bb, t) for bb, t in f.calls() if norm(util.cname(t)).endswith("trailing_zeros")]
+    if len(tz) != 1:
+        raise LaneUnsupported("no single trailing_zeros call")
+    bb, t = tz[0]
+    lanes = lane_eval(sy.operand(t["args"][0]), is_word)
+    cls = [frozenset(bv for bv in range(256) if lanes[p][bv] == 0) for p in range(8)]
+    if len(set(cls)) != 1:
+        raise LaneUnsupported("the lanes test different classes")
+    return cls[0], bb
+
+
+def run_r5(ctx, rule):
+    """the 8-byte fast path counts exactly the leading ASCII digits: the word handed to trailing_zeros has a zero byte
+    in a lane iff that lane's input byte is '0'..='9' (lane-wise abstract interpretation: all 256 byte values of
+    every lane, with a proof that no addition carries between lanes), the count is trailing_zeros / 8, and the digits'
+    values entering the reduction are byte - b'0'.  The multiply-and-shift reduction itself is value-level (assumed)."""
+    facts = ctx.facts
+    f = tfn(facts, "swar_ascii_digits_u64_le")
+    sy = sym(f)
+    word = ("l", 1)
+    tz = [(bb, t) for bb, t in f.calls() if norm(util.cname(t)).endswith("trailing_zeros")]
+    if len(tz) != 1:
+        rule.bad("swar/anchor", "anchor missing: the trailing_zeros call of the digit kernel (found %d)" % len(tz), kind="anchor-missing")
+        return
+    bb, t = tz[0]
+    m = sy.operand(t["args"][0])
+    try:
+        lanes = lane_eval(m, word)
+    except LaneCarry as e:
+        rule.bad("swar/lanes-independent", "the digit test is not a per-byte test: %s" % e, f.loc(bb))
+        return
+    except LaneUnsupported as e:
+        rule.bad("swar/lanes-domain", "the digit test uses an operation outside the lane domain: %s" % e, f.loc(bb), kind="unmodelled-idiom")
+        return
+    rule.ok("no addition in the digit test carries from one byte lane into the next (all 256 byte values of every lane)", f.loc(bb))
+    wrong = []
+    for p in range(8):
+        for bv in range(256):
+            if (lanes[p][bv] == 0) != (48 <= bv <= 57):
+                wrong.append((p, bv))
+    rule.check(not wrong, "swar/digit-class", "a lane of the tested word is zero exactly for the input bytes '0'..='9'%s" % ("" if not wrong else " (lane %d, byte 0x%02x and %d more)" % (wrong[0][0], wrong[0][1], len(wrong) - 1)), f.loc(bb))
+    # count = (trailing_zeros & !7) / 8, early exit on 0
+    cnt_ok = False
+    val_ok = None
+    for bi, b in enumerate(f.blocks):
+        for s_ in b["stmts"]:
+            if s_["k"] == "assign" and s_["lhs"]["l"] == 0 and not s_["lhs"]["p"] and s_["rv"]["k"] == "agg" and len(s_["rv"]["ops"]) == 2:
+                e1 = sy.operand(s_["rv"]["ops"][1])
+                if e1[0] == "cast":
+                    e1 = e1[2]
+                if e1[0] == "bin" and e1[1] == "Div" and e1[3] == ("c", 8) and mentions(e1[2], lambda x: x[0] == "call" and x[1] == bb) and mentions(e1[2], lambda x: x == ("un", "Not", ("c", 7)) or (x[0] == "c" and isinstance(x[1], int) and x[1] & 7 == 0 and x[1] > 7)):
+                    cnt_ok = True
+    rule.check(cnt_ok, "swar/count", "the number of digits is (trailing_zeros & !7) / 8 of the tested word", f.loc())
+    # the digits entering the reduction: the shifted operand has value byte - '0' in every digit lane
+    for b2, t2 in f.calls():
+        if norm(util.cname(t2)).endswith("wrapping_mul"):
+            a0 = sy.operand(t2["args"][0])
+            if a0[0] == "bin" and a0[1] == "Shl" and mentions(a0[3], lambda x: x[0] == "call" and x[1] == bb):
+                try:
+                    dl = lane_eval(a0[2], word)
+                    val_ok = all(dl[p][bv] == bv - 48 for p in range(8) for bv in range(48, 58))
+                except (LaneCarry, LaneUnsupported):
+                    val_ok = False
+    rule.check(bool(val_ok), "swar/digit-values", "the bytes entering the multiply reduction are byte - b'0' for every digit byte", f.loc())
+
+
 def run(ctx):
     r1 = ctx.rule("C13-R1", "all arithmetic on the accumulated value goes through overflowing_* steps (no plain or primitive arithmetic on the generic integer)", floor=8)
     run_r1(ctx, r1)
@@ -310,6 +430,8 @@ def run(ctx):
     run_r2(ctx, r2)
     r3 = ctx.rule("C13-R3", "scanning behaviour: digit class, +1 per digit, a lone minus is not passed over (entry offsets 0 and 1)", floor=60)
     run_r3(ctx, r3)
+    r5 = ctx.rule("C13-R5", "the SWAR kernel tests exactly the digit class, lane by lane, without carries between lanes", floor=4)
+    run_r5(ctx, r5)
     r4 = ctx.rule("C13-R4", "fast/cold plumbing: cold tail calls, 'all matched' constants, continuation at offset+8, checked conversions", floor=10)
     run_r4(ctx, r4)
     ctx.assume("the numeric value computed by the SWAR kernel and by the accumulation loops is not decided (value-level)")
